@@ -193,6 +193,12 @@ def discharge(obligations, tier='quick', log=None):
   """Fills ob.result = dict(status, backend, ms, model, note)."""
   t_short = 3 if tier == 'quick' else 10
   t_long = 90 if tier == 'quick' else 400
+  # obligations decided by another back end (e.g. Lean) arrive with their result
+  preset = [ob for ob in obligations if getattr(ob, 'external', None)]
+  for ob in preset:
+    ob.result = dict(ob.external)
+  all_obligations = obligations
+  obligations = [ob for ob in obligations if not getattr(ob, 'external', None)]
   # SMT-LIB text is produced in this thread (the z3 API is not thread safe)
   texts = {id(ob): to_smt2(ob) for ob in obligations}
 
@@ -235,7 +241,7 @@ def discharge(obligations, tier='quick', log=None):
       else:
         ob.result = {'status': 'unknown', 'backend': backend, 'ms': ms, 'model': None,
                      'note': out}
-  return obligations
+  return all_obligations
 
 
 def second_pass_text(text, t_long):
